@@ -1,5 +1,5 @@
 from .. import facts
-from ..rules import image, algebra, opacity
+from ..rules import status, image, algebra, opacity
 
 
 def run(ck):
@@ -9,3 +9,4 @@ def run(ck):
     opacity.r2_opacity_flags(ck, P)
     opacity.r3_mask_elision(ck, P)
     image.r_validated_before_use(ck, P, 'C09-R4')
+    status.r19_6_op_reduction(ck, P)        # C19-R6: the OVER->SRC rewrite of fill_boxes is an opacity simplification too
